@@ -88,4 +88,21 @@ PROPS = {
                      "unit id filtering and the ASCII transport are not modelled"],
         "assumptions": ["register values are 16-bit (Regs16)", "frames are delivered whole (one Read = one frame) as modbus.NewClient requires"],
     },
+    "C12": {
+        "required_theorems": ["c12_point_roundtrip", "c12_point_time_error", "c12_node_roundtrip", "c12_decoders_total",
+                              "c12_hr_in_bounds", "c12_subjects_total", "gen_pb_pinned"],
+        "n": {"quick": 30000, "thorough": 300000},
+        "thorough_seeds": 3,
+        "rule": "ep/en/eN: generated points and nodes through the real Points.ToPb / NodeEdge.ToPb / Nodes.ToPb, compared BYTE FOR BYTE with the model's proto3 encoder and decoded back; "
+                "dp/dn/dq/dN/dQ/ds: every decoder on valid encodings, on encodings mutated like a hostile peer would (truncation, bit flips, inserted bytes, unknown fields of all wire types, "
+                "groups incl. nested/unterminated/mismatched, known field numbers with other wire types, over-long and overflowing varints, field number 0 / > 2^29-1, reserved wire types, duplication) "
+                "and on random bytes; replies without node; hr: high-rate payloads of every length class; sj: the four subject parsers on short/odd subjects; "
+                "distinct = distinct case line; every case runs a real codec function",
+        "trusted": ["google.golang.org/protobuf v1.27.1 Unmarshal/Marshal (modelled at the byte level in Siot/Model/Proto3.lean; equality exercised on every case)",
+                    "golang/protobuf ptypes.Timestamp validation (range constants transcribed)", "float32->float64 widening (IEEE, parameter `widen`)"],
+        "modelled": ["data/point.go ToPb, PbToPoint, SerialToPoint, PbDecodePoints, PbDecodeSerialPoints, DecodeSerialHrPayload; data/node.go ToPbNode, PbToNode, PbDecode*; client/msg.go subject parsers",
+                     "the byte-level round trip decode(encode m) = m is checked on every generated case by the driver; its proof for all messages is not yet part of this file (message-level round trip is proved)"],
+        "partial": "byte-level round-trip theorem over all messages not yet proved; message-level round trip, totality and bounds are",
+        "assumptions": ["times within the protobuf Timestamp range [0001-01-01, 10000-01-01)", "tombstone counts within int32", "strings valid UTF-8 (proto3 requirement)"],
+    },
 }
